@@ -429,9 +429,14 @@ static void dd_run(dd_env_t *e, const dd_prog_t *p, const dd_cfg_t *cfg, dd_res_
     if (dd_hook_before_insert) dd_hook_before_insert(tp, p->nt);
     if (cfg->flush_mask >= 0) {
         for (int i = 0; i < e->ntiles; i++) if (cfg->flush_mask & (1 << i)) parsec_dtd_data_flush(tp, parsec_dtd_tile_of(dd_cur_dc, (parsec_data_key_t)i));
-        parsec_taskpool_wait(tp);
-        for (int i = 0; i < e->ntiles; i++) if ((int)e->dc->owner[i] == dd_myrank) res->after_partial[i] = *(int64_t *)vdc_elem(e->dc, i);
-        res->partial_done = 1;
+        /* single process: wait right away and look at the flushed tiles. Multi-rank: a rank keeps the remote last writer of every
+         * UNflushed tile retained (a pending runtime action), so a wait before everything is flushed never returns there; the
+         * repository's own programs always flush everything before they wait - do the same (one wait after flush_all). */
+        if (dd_nranks == 1) {
+            parsec_taskpool_wait(tp);
+            for (int i = 0; i < e->ntiles; i++) if ((int)e->dc->owner[i] == dd_myrank) res->after_partial[i] = *(int64_t *)vdc_elem(e->dc, i);
+            res->partial_done = 1;
+        }
     }
     parsec_dtd_data_flush_all(tp, dd_cur_dc);
     parsec_taskpool_wait(tp);
